@@ -39,4 +39,7 @@ theorem holds_accept_bookkeeping (nothingParked : Bool) (n m : Nat) :
 theorem holds_one_slot_per_id (together : Bool) : Hygiene.slotsAfterRendezvous Facts.hygiene together = 1 :=
   Props.Hygiene.one_slot_per_id _ (by decide) together
 
+theorem holds_dispense_ids_distinct (d r : Nat) : (Hygiene.outstandingIds Facts.hygiene d r).Nodup :=
+  Props.Hygiene.dispense_ids_distinct _ (by decide) d r
+
 end GoPlugin.Instance.C06
